@@ -74,6 +74,8 @@ def run(ctx):
         hist.append(links.random_history(ctx, rnd, "h%d" % t, nn, rnd.randrange(ln // 2, ln + 1), classes,
                                          p_save=0.2, variants=("canonical", "always", "never", "superset"),
                                          trailing=rnd.choice([0, 0, 1, 3])))
+    # scale: a project of more than 256 modules (link targets and slot numbers above 255)
+    hist.append(links.random_history(ctx, rnd, "h-large", 262, 40 if q else 120, classes, p_save=0.1, variants=("canonical", "never", "always")))
     for tr in hist:
         for i, e in enumerate(tr["events"]):
             if e["op"] == "saveload":
